@@ -531,11 +531,26 @@ def r7(ck, F):
     b = F.body("tracing_subscriber::subscribe::layered::Layered::<A, B, C>::pick_level_hint")
     if not ck.anchor("C08.R7", "Layered::pick_level_hint", b):
         return
-    uses = [t["callee"].get("path", "") for bb, t in b.calls()]
-    none_checks = [u for u in uses if "subscriber_is_none" in u or "is_none" in u]
-    params = b.argc
     conds = {show(c[0]) for p in PathEval(b).run() for c in p.conds}
-    if any("subscriber_is_none" in c or "arg4" in c for c in conds | set(uses)):
-        ck.ok("C08.R7", "pick_level_hint has the None-layer branches (Option<S>::None hint OFF is corrected at composition)", fn=b.path)
+    problems = []
+    # the outer layer is tested with a fresh call on the live value: a layer wrapped in reload::Subscriber can change between
+    # Some and None after the stack was built, so a flag computed at construction goes stale
+    if not any(c.startswith("subscriber_is_none(") and "arg1.subscriber" in c for c in conds):
+        cached = sorted(c for c in conds if "is_none" in c)
+        problems.append("the outer layer's None-ness is not recomputed from self.subscriber on each call (conditions: %s): Option<S>::None reports "
+                        "Some(OFF), and a stale answer disables everything or hides the inner hint" % (cached or sorted(conds)[:4]))
+    # the inner value's None-ness is a parameter: every caller must pass a fresh subscriber_is_none(&self.inner)
+    if not any(c == "arg4" for c in conds):
+        problems.append("no test of the inner value's None-ness (parameter inner_is_none)")
+    for x, bb, t in F.callers().get(b.path, []):
+        if len(t["argv"]) < 4:
+            continue
+        o = x.origin(t["argv"][3])
+        fresh = o[0] == "call" and (o[2]["callee"].get("path") or "").rsplit("::", 1)[-1] in ("subscriber_is_none", "collector_is_none")
+        const = o[0] == "const"
+        if not (fresh or const):
+            problems.append("%s passes inner_is_none from %s, not from a fresh subscriber_is_none(&self.inner)" % (x.path[-60:], o[0]))
+    if problems:
+        ck.bad("C08.R7", "pick_level_hint has the None-layer branches, evaluated on the live layers", where(b.raw["sp"]), "; ".join(problems), fn=b.path)
     else:
-        ck.bad("C08.R7", "pick_level_hint has the None-layer branches", where(b.raw["sp"]), "no test for a None layer: Some(OFF) from Option::None would disable everything", fn=b.path)
+        ck.ok("C08.R7", "pick_level_hint has the None-layer branches, evaluated on the live layers (Option<S>::None hint OFF is corrected at composition)", fn=b.path)
